@@ -396,8 +396,7 @@ HookCall(h) ==
     /\ Alive /\ em.on /\ cur = None /\ h \in em.todo
     /\ cur' = h /\ cst' = "called"
     /\ em' = [em EXCEPT !.todo = @ \ {h}, !.ran = @ \cup {h}]
-    /\ nbStarted' = (IF Launches(h) /\ ~Blocking(h) THEN nbStarted + 1 ELSE nbStarted)
-    /\ UNCHANGED <<ctl, world, lastErr, nEmit, isu, shutcb, nbDone, ghost, proc>>
+    /\ UNCHANGED <<ctl, world, lastErr, cnt, ghost, proc>>
 
 \* a blocking command runs to its end (cmd.Run)
 CmdDone ==
@@ -405,13 +404,15 @@ CmdDone ==
     /\ cst' = "cmddone"
     /\ UNCHANGED <<ctl, world, em, cur, lastErr, cnt, ghost, proc>>
 
-\* the hook returns: a blocking command has finished by then, a non-blocking one need not have
+\* the hook returns: a blocking command has finished by then (cmd.Run); a non-blocking one has
+\* been launched (cmd.Start) and need not have finished
 HookRet ==
     /\ Alive /\ cur # None
     /\ (Launches(cur) /\ Blocking(cur)) => cst = "cmddone"
     /\ lastErr' = HookErr(cur)
+    /\ nbStarted' = (IF Launches(cur) /\ ~Blocking(cur) THEN nbStarted + 1 ELSE nbStarted)
     /\ cur' = None /\ cst' = "-"
-    /\ UNCHANGED <<ctl, world, em, cnt, ghost, proc>>
+    /\ UNCHANGED <<ctl, world, em, nEmit, isu, shutcb, nbDone, ghost, proc>>
 
 \* a non-blocking command finishes whenever it likes (also after the process is gone)
 NbDone ==
@@ -561,6 +562,8 @@ InstanceStartupExact ==
 RestartEventReachesNobody == (em.on /\ em.ev = "instancerestart") => em.snap = {}
 \* the apparent intention, for the EarlyRestart variant: it reaches the hooks of the old configuration
 RestartEventReachesOld == (em.on /\ em.ev = "instancerestart") => em.snap = snapU
+\* either of the two (what a recorded trace is held to)
+RestartEventScope == (em.on /\ em.ev = "instancerestart") => (em.snap = {} \/ em.snap = snapU)
 
 \* ShutdownEvent: at most once per process, inside the Once, before any shutdown callback of the
 \* process-exit path; QUIT and a forced exit never emit it on their own
